@@ -114,6 +114,10 @@ open Gen.LockFacts in
 theorem queue_accesses_guarded :
     unguardedIn ["agent", "handlers", "server", "service", "socks"] ["JobQueue", "Tasks"] = [] := by decide
 
+/-- the same on every control-flow path separately (regenerated `Gen.LockPaths`): no early return, branch or case of
+    any of these functions leaves a mutex held that a `defer` does not release -/
+theorem agent_locks_balanced_every_path : pathsUnbalancedIn ["agent", "handlers"] = [] := by decide
+
 /-- … and no function returns with a mutex held -/
 theorem agent_locks_balanced : unbalancedIn ["agent", "handlers"] = [] := by decide
 
